@@ -410,8 +410,8 @@ def run_kv(run, prop=None):
     run.cov["evaluations"] = evals
     run.cov["distinct_nontrivial"] = distinct
     run.cov["rule"] = ("evaluations = logged results of class %s asserted by KVTrace against the model; a trace is non-trivial "
-                       "when it holds >= 3 such results; distinct by content hash. Workloads: seeded random driver profile %s "
-                       "and TLC-generated behaviours, each under configurations %s" % (checked, pp["profile"], cfgs))
+                       "when it holds >= %d such results; distinct by content hash. Workloads: seeded random driver profile %s "
+                       "and TLC-generated behaviours, each under configurations %s" % (checked, 2 if "close" in checked else 3, pp["profile"], cfgs))
     run.cov["trace_events"] = events
     run.cov["configs"] = cfgs
     if pp.get("note_blob"):
